@@ -2635,14 +2635,11 @@ impl C09 {
                 // by signal at depth n attributed to the depth itself (and, for `\ifnum`, to the
                 // recorded finding C09-n). Everything else gets a signature of its own.
                 let exe = std::env::current_exe().unwrap();
-                {
-                    // the stream is about the usual 8 MiB main-thread stack; where the hard
-                    // limit of the environment is below that, nothing can be said
-                    let mut r = RLimit { cur: 0, max: 0 };
-                    if unsafe { getrlimit(RLIMIT_STACK, &mut r) } == 0 && r.max < (8 << 20) {
-                        o.tag("deep:not run (hard stack limit below 8 MiB)");
-                        return o;
-                    }
+                // the stream is about the usual 8 MiB main-thread stack; where the hard limit of
+                // the environment is below that, nothing can be said
+                if hard_stack_limit().is_some_and(|m| m < USUAL_STACK) {
+                    o.tag("deep:not run (hard stack limit below 8 MiB)");
+                    return o;
                 }
                 let child = |depth: usize| -> Result<(), (bool, String)> {
                     let mut cmd = std::process::Command::new(&exe);
@@ -2651,18 +2648,7 @@ impl C09 {
                         .stderr(std::process::Stdio::null());
                     // the child's main thread gets the usual 8 MiB whatever `ulimit -s` says in
                     // the environment of the check (the soft limit at exec time sizes it)
-                    unsafe {
-                        use std::os::unix::process::CommandExt;
-                        cmd.pre_exec(|| {
-                            let mut r = RLimit { cur: 0, max: 0 };
-                            if getrlimit(RLIMIT_STACK, &mut r) == 0 {
-                                let want: u64 = 8 << 20;
-                                r.cur = if r.max < want { r.max } else { want };
-                                setrlimit(RLIMIT_STACK, &r);
-                            }
-                            Ok(())
-                        });
-                    }
+                    pin_child_stack(&mut cmd);
                     let st = cmd.status();
                     match st {
                         Ok(s) if s.code() == Some(0) => Ok(()),
@@ -2791,16 +2777,7 @@ fn watchdog(out: Option<String>, tier: String, seed: u64) {
     }
 }
 
-#[repr(C)]
-struct RLimit {
-    cur: u64,
-    max: u64,
-}
-const RLIMIT_STACK: i32 = 3;
-
 extern "C" {
-    fn getrlimit(resource: i32, rlim: *mut RLimit) -> i32;
-    fn setrlimit(resource: i32, rlim: *const RLimit) -> i32;
     fn mallopt(param: i32, value: i32) -> i32;
     fn dup2(oldfd: i32, newfd: i32) -> i32;
 }
